@@ -32,6 +32,8 @@ fn main() {
         ("c03", None) => m6::run(&args, "C03"),
         ("c04s", None) => m6::run(&args, "C04"),
         ("c05", None) => m6::run(&args, "C05"),
+        ("c03d", None) => m6::run_scan(&args, "C03"),
+        ("c03d", Some(p)) => m6::replay(&args, "C03", p),
         ("c02", Some(p)) => m6::replay(&args, "C02", p),
         ("c03", Some(p)) => m6::replay(&args, "C03", p),
         ("c04s", Some(p)) => m6::replay(&args, "C04", p),
